@@ -76,9 +76,9 @@ def cell(cfg, c, seeds):
 
 def run():
     ck = Check("C10")
-    shifts = ck.pick([1e3, -1e3, 37.5, -0.731], [1e3, -1e3, 37.5, -37.5, 1e-3, -0.731, 512.0, -999.99])
+    shifts = ck.pick([1e3, -1e3, 37.5, -0.731, 5.0, -700.0, 0.5, 750.0], [1e3, -1e3, 37.5, -37.5, 1e-3, -0.731, 512.0, -999.99, 5.0, -700.0, 0.5, 750.0, 2.0, -5.0])
     cfgs = []
-    for i in range(ck.pick(12, 96)):
+    for i in range(ck.pick(24, 96)):
         cfgs.append(dict(runs.small_cfg(i), volume_variation=[None, 1.0][(i // 3) % 2]))
     tasks = []
     for i, cfg in enumerate(cfgs):
